@@ -14,7 +14,7 @@ OPEXPR = {
     'OPT_ONE_A': "opt< one< 'a' > >", 'AT_ONE_A': "at< one< 'a' > >", 'NOT_AT_ONE_A': "not_at< one< 'a' > >",
     'KEYWORD_AB': "keyword< 'a', 'b' >", 'IDENTIFIER': 'identifier', 'SHEBANG': 'shebang', 'TWO_A': "two< 'a' >", 'THREE_A': "three< 'a' >",
     'ROMM12_A': "rep_one_min_max< 1, 2, 'a' >", 'ROMM02_A': "rep_one_min_max< 0, 2, 'a' >", 'ROMM00_A': "rep_one_min_max< 0, 0, 'a' >",
-    'INT_U': 'unsigned_rule', 'INT_S': 'signed_rule', 'RAW': "raw_string< '[', '=', ']' >",
+    'INT_U': 'unsigned_rule', 'INT_S': 'signed_rule', 'INT_MAX7': 'maximum_rule< std::uint8_t, 7 >', 'INT_MAX8': 'maximum_rule< std::uint8_t >', 'RAW': "raw_string< '[', '=', ']' >",
     'PRED_AND': "predicates_and< range< 'a', 'c' >, not_one< 'b' > >", 'PRED_NOT': "predicate_not< one< 'a' > >",
     'STAR': 'star< {a} >', 'PLUS': 'plus< {a} >', 'OPT': 'opt< {a} >', 'AT': 'at< {a} >', 'NOT_AT': 'not_at< {a} >',
     'SEQ1': 'seq< {a} >', 'SOR1': 'sor< {a} >', 'SEQ': 'seq< {a}, {b} >', 'SOR': 'sor< {a}, {b} >', 'SEQ3': 'seq< {a}, {b}, {c} >', 'SOR3': 'sor< {a}, {b}, {c} >',
@@ -39,6 +39,9 @@ OPEXPR = {
     'ACTION_ALT': 'action< nothing, {a} >', 'CUSTOM_ANY': '::custom_any< {a} >', 'CONTROL_ALT': 'control< normal, {a} >', 'RAW1': "raw_string< '[', '=', ']', {a} >",
     'SEPARATED_SEQ': 'separated_seq< {a}, {b}, {c} >', 'IF_THEN_ELSE_THEN': 'if_then< {a}, {b} >::else_then< {c} >', 'IF_THEN': 'if_then< {a}, {b} >', 'IF_THEN_CHAIN': 'if_then< {a}, {b} >::else_if_then< {b}, {c} >::else_if_then< {c}, {a} >',
 }
+for _n, _c in (('SEMI', "';'"), ('RBR', "']'"), ('EQ', "'='"), ('COMMA', "','"), ('GT', "'>'"), ('QUOTE', "'\\''")):
+    OPEXPR['STAR_NA_' + _n] = "star< sor< one< %s >, one< 'a' > > >" % _c
+    OPEXPR['STAR_SORX_' + _n] = 'star< sor< one< %s >, {a} > >' % _c
 for n in range(5):
     OPEXPR['REP%d' % n] = 'rep< %d, {a} >' % n
     OPEXPR['REP_MIN%d' % n] = 'rep_min< %d, {a} >' % n
